@@ -32,6 +32,19 @@ theorem split_float_nonfinite (x : XF) (h : ∀ q, x ≠ .fin q) : splitFloatX x
   | ninf => rfl
   | nan => rfl
 
+/-! ## `split_translation` -/
+
+/-- `split_translation(t)`: `t = t_whole + t_subpix` on both axes, the whole part is a pair of
+integers and the sub-pixel part lies in `[-½, ½]²`. -/
+theorem split_translation_spec (t : Rat × Rat) :
+    let r := splitTranslation t
+    (r.1.1 + r.2.1 = t.1 ∧ r.1.2 + r.2.2 = t.2) ∧
+    (∃ i j : Int, r.1 = ((i : Rat), (j : Rat))) ∧
+    (-(1 / 2) ≤ r.2.1 ∧ r.2.1 ≤ 1 / 2 ∧ -(1 / 2) ≤ r.2.2 ∧ r.2.2 ≤ 1 / 2) := by
+  obtain ⟨⟨i, hi⟩, s1, l1, u1⟩ := splitFloat_spec t.1
+  obtain ⟨⟨j, hj⟩, s2, l2, u2⟩ := splitFloat_spec t.2
+  exact ⟨⟨s1, s2⟩, ⟨i, j, by simp only [splitTranslation, hi, hj]⟩, l1, u1, l2, u2⟩
+
 /-! ## `maybe_int`, `is_almost_int` -/
 
 /-- `maybe_int` replaces `x` by an `int` exactly when `is_almost_int` says yes. -/
@@ -349,6 +362,48 @@ theorem resolution_from_affine_spec (A : Aff) (n p : Rat) :
     unfold resolutionFromAffine
     rw [if_neg (by rw [h]; simp)]
     simp only [decomposeRws, decomposeRws2_closed A n p hdet hn hn2 hp hp2, m2]
+
+/-- The tolerance constants are the exact values of the Python doubles `1e-10` (`is_affine_st`
+default, used by `resolution_from_affine`) and `1e-6`: `m / 2^86` resp. `m / 2^72`, within half an
+ulp of the decimal. -/
+theorem tolerance_constants :
+    tol1em10 = 7737125245533627 / 2 ^ 86 ∧ |tol1em10 - 1 / 10 ^ 10| < 1 / 10 ^ 26 ∧
+    tol1em6 = 4722366482869645 / 2 ^ 72 ∧ |tol1em6 - 1 / 10 ^ 6| < 1 / 10 ^ 22 := by
+  have e1 : tol1em10 = 7737125245533627 / 2 ^ 86 := by
+    unfold tol1em10; rw [Rat.mkRat_eq_div]; norm_num
+  have e2 : tol1em6 = 4722366482869645 / 2 ^ 72 := by
+    unfold tol1em6; rw [Rat.mkRat_eq_div]; norm_num
+  refine ⟨e1, ?_, e2, ?_⟩
+  · rw [e1, abs_lt]; constructor <;> norm_num
+  · rw [e2, abs_lt]; constructor <;> norm_num
+
+/-- **Sheared input** (`A = [[sx, k], [0, sy]]`, shear `k` at or above the `1e-10` tolerance): the
+reported resolution is `(|sx|, sy·sign sx)` — the shear does not leak into it, the x component is
+always positive. -/
+theorem resolution_from_affine_sheared (sx k c sy f : Rat) (hsx : sx ≠ 0) (hsy : sy ≠ 0)
+    (hk : tol1em10 ≤ |k|) :
+    resolutionFromAffine ⟨sx, k, c, 0, sy, f⟩ |sx| |sy| = (|sx|, sx * sy / |sx|) := by
+  have hst : isAffineSt ⟨sx, k, c, 0, sy, f⟩ tol1em10 = false := by
+    simp only [isAffineSt, rabs_eq_abs, Bool.and_eq_false_iff, decide_eq_false_iff_not, not_lt]
+    left; exact hk
+  have hn : 0 < |sx| := abs_pos.mpr hsx
+  have hp : 0 < |sy| := abs_pos.mpr hsy
+  have h := (resolution_from_affine_spec ⟨sx, k, c, 0, sy, f⟩ |sx| |sy|).2 hst
+    (by simp [Aff.det, hsx, hsy]) hn (by simp [abs_mul_abs_self]) hp
+    (by
+      simp only [mul_zero, add_zero]
+      have : (k * sx / |sx|) ^ 2 = k * k := by
+        rw [div_pow, mul_pow, sq_abs]; field_simp
+      rw [this, abs_mul_abs_self]; ring)
+  rw [h]; simp [Aff.det]
+
+/-- What HEAD does at the boundary between the two branches: a mirrored scale keeps its sign without
+shear (`(-1, 1)`), but the same scale with a shear reports `(1, -1)` — the documented sign
+ambiguity of `decompose_rws` becomes a discontinuity of `resolution_from_affine`. -/
+theorem resolution_from_affine_sign_discontinuity :
+    resolutionFromAffine ⟨-1, 0, 0, 0, 1, 0⟩ 1 1 = (-1, 1) ∧
+    resolutionFromAffine ⟨-1, 1, 0, 0, 1, 0⟩ 1 1 = (1, -1) := by
+  constructor <;> decide +kernel
 
 /-- Hypotheses of `decompose_rws_spec` are satisfiable: the 3-4-5 rotation with shear and scale. -/
 example : (decomposeRws ⟨3, -1, 7, 4, 7, 9⟩ 5 5).S = ⟨5, 0, 0, 0, 5, 0⟩ ∧
@@ -676,6 +731,136 @@ theorem poly_fit_exact_biquadratic (Ain Ab : Aff) (hN : FitNorms Ain Ab)
   simp only [Poly2d.eval, Poly2d.ofFit, poly_norm_eq_apply]
   rw [denorm9 c0 c1 c2 c3 c4 c5 c6 c7 c8 Ab hN.outb hN.outd hN.outs, h1, Aff.inv_apply_apply Ab hdetout]
 
+/-! ## `Poly2d.fit`: dispatch on the number of points and layout of the design matrix -/
+
+/-- **Dispatch**: fewer than three point pairs are rejected; 3 → affine (`_fit3`), 4…8 → bilinear
+(`_fit4`), 9 and more → biquadratic (`_fit9`); the system LAPACK gets is never under-determined
+(`columns ≤ points`). -/
+theorem fit_kind_spec (N : Nat) :
+    (N < 3 → Poly2d.fitKind N = .error .valueError) ∧
+    (N = 3 → Poly2d.fitKind N = .ok .affine) ∧
+    (4 ≤ N ∧ N ≤ 8 → Poly2d.fitKind N = .ok .bilinear) ∧
+    (9 ≤ N → Poly2d.fitKind N = .ok .biquadratic) ∧
+    (∀ k, Poly2d.fitKind N = .ok k → k.ncols ≤ N) := by
+  refine ⟨?_, ?_, ?_, ?_, ?_⟩
+  · intro h; simp [Poly2d.fitKind, h]
+  · intro h; subst h; rfl
+  · rintro ⟨h1, h2⟩
+    simp only [Poly2d.fitKind]
+    rw [if_neg (by omega), if_neg (by omega), if_pos (by omega)]
+  · intro h
+    simp only [Poly2d.fitKind]
+    rw [if_neg (by omega), if_pos (by omega)]
+  · intro k hk
+    simp only [Poly2d.fitKind] at hk
+    split at hk
+    · exact absurd hk (by simp)
+    · split at hk
+      · cases Except.ok.inj hk; simp only [Poly2d.FitKind.ncols]; omega
+      · split at hk
+        · cases Except.ok.inj hk; simp only [Poly2d.FitKind.ncols]; omega
+        · cases Except.ok.inj hk; simp only [Poly2d.FitKind.ncols]; omega
+
+/-- **The columns of the design matrix match the coefficient layout `Poly2d` evaluates**: for each
+family, `AA[i] · cc` (what LAPACK fits) is `polyval2d` of the reshaped (for `_fit3`: zero-padded)
+coefficient table at the same point — `cc[i][j]` multiplies `x^i·y^j`. -/
+theorem design_row_is_polyval (p : Rat × Rat) :
+    (∀ c0 c1 c2 : Rat × Rat,
+      Poly2d.designDot (Poly2d.designRow .affine p) [c0, c1, c2] =
+        Poly2d.evalCC (Poly2d.reshape 2 (Poly2d.padCoeffs .affine [c0, c1, c2])) p) ∧
+    (∀ c0 c1 c2 c3 : Rat × Rat,
+      Poly2d.designDot (Poly2d.designRow .bilinear p) [c0, c1, c2, c3] =
+        Poly2d.evalCC (Poly2d.reshape 2 (Poly2d.padCoeffs .bilinear [c0, c1, c2, c3])) p) ∧
+    (∀ c0 c1 c2 c3 c4 c5 c6 c7 c8 : Rat × Rat,
+      Poly2d.designDot (Poly2d.designRow .biquadratic p) [c0, c1, c2, c3, c4, c5, c6, c7, c8] =
+        Poly2d.evalCC (Poly2d.reshape 3 (Poly2d.padCoeffs .biquadratic [c0, c1, c2, c3, c4, c5, c6, c7, c8])) p) := by
+  refine ⟨?_, ?_, ?_⟩
+  · intro c0 c1 c2
+    simp only [Poly2d.padCoeffs, List.cons_append, List.nil_append, evalCC_reshape2, Poly2d.designDot,
+      Poly2d.designRow, List.zip_cons_cons, List.zip_nil_right, List.foldl_cons, List.foldl_nil]
+    ext <;> simp only [] <;> ring
+  · intro c0 c1 c2 c3
+    simp only [Poly2d.padCoeffs, evalCC_reshape2, Poly2d.designDot,
+      Poly2d.designRow, List.zip_cons_cons, List.zip_nil_right, List.foldl_cons, List.foldl_nil]
+    ext <;> simp only [] <;> ring
+  · intro c0 c1 c2 c3 c4 c5 c6 c7 c8
+    simp only [Poly2d.padCoeffs, evalCC_reshape3, Poly2d.designDot,
+      Poly2d.designRow, List.zip_cons_cons, List.zip_nil_right, List.foldl_cons, List.foldl_nil]
+    ext <;> simp only [] <;> ring
+
+/-- The squared residual of `AA·cc` against the normalised targets *is* `Poly2d.fitCost` (bilinear
+case): the cost LAPACK minimises is the cost the `poly_fit_exact_*` theorems are about. -/
+theorem design_residual_is_fit_cost (Ain Ab : Aff) (data : List ((Rat × Rat) × (Rat × Rat)))
+    (c0 c1 c2 c3 : Rat × Rat) :
+    (data.map fun q =>
+      let v := Poly2d.designDot (Poly2d.designRow .bilinear (Ain.apply q.1)) [c0, c1, c2, c3]
+      let w := Ab.apply q.2
+      (v.1 - w.1) * (v.1 - w.1) + (v.2 - w.2) * (v.2 - w.2)).sum =
+    Poly2d.fitCost 2 Ain Ab data [c0, c1, c2, c3] := by
+  unfold Poly2d.fitCost
+  congr 1
+  apply List.map_congr_left
+  intro q _
+  have := (design_row_is_polyval (Ain.apply q.1)).2.1 c0 c1 c2 c3
+  simp only [Poly2d.padCoeffs] at this
+  simp only [this]
+
+/-- **`Poly2d.fit` end to end (4 ≤ N ≤ 8)**: with `norm_xy`'s two affines and LAPACK as parameters,
+if LAPACK returns four coefficient pairs minimising `‖AA·cc − B‖²` and the data are exactly bilinear
+(in the original coordinates), the returned `Poly2d` maps every `a_i` to `b_i`.  The N = 3 and
+N ≥ 9 cases are `poly_fit_exact_affine` / `poly_fit_exact_biquadratic` composed in the same way. -/
+theorem poly_fit_pipeline_exact (lstsq : List (List Rat) → List (Rat × Rat) → Option (List (Rat × Rat)))
+    (Ain Ab : Aff) (hN : FitNorms Ain Ab) (aa bb : List (Rat × Rat)) (hN4 : 4 ≤ aa.length) (hN8 : aa.length ≤ 8)
+    (p0 p1 p2 p3 : Rat × Rat)
+    (hexact : ∀ q ∈ aa.zip bb, Poly2d.evalCC (Poly2d.reshape 2 [p0, p1, p2, p3]) q.1 = q.2)
+    (hls : ∀ rows targets cc, lstsq rows targets = some cc →
+      ∃ c0 c1 c2 c3, cc = [c0, c1, c2, c3] ∧ ∀ d0 d1 d2 d3 : Rat × Rat,
+        Poly2d.lsqCost rows targets [c0, c1, c2, c3] ≤ Poly2d.lsqCost rows targets [d0, d1, d2, d3])
+    (P : Poly2d) (h : Poly2d.fit lstsq Ain Ab aa bb = .ok P) :
+    ∀ q ∈ aa.zip bb, P.eval q.1 = q.2 := by
+  unfold Poly2d.fit at h
+  split at h
+  · exact absurd h (by simp)
+  · have hk : Poly2d.fitKind aa.length = .ok .bilinear := (fit_kind_spec aa.length).2.2.1 ⟨hN4, hN8⟩
+    rw [hk] at h
+    simp only at h
+    split at h
+    · exact absurd h (by simp)
+    · rename_i cc hcc
+      obtain ⟨c0, c1, c2, c3, rfl, hmin⟩ := hls _ _ cc hcc
+      have hP := Except.ok.inj h
+      subst hP
+      -- the cost LAPACK saw is `fitCost` on the zipped data
+      have hcost : ∀ d : List (Rat × Rat),
+          Poly2d.lsqCost (aa.map fun a => Poly2d.designRow .bilinear (Ain.apply a)) (bb.map Ab.apply) d =
+            ((aa.zip bb).map fun q =>
+              let v := Poly2d.designDot (Poly2d.designRow .bilinear (Ain.apply q.1)) d
+              let w := Ab.apply q.2
+              (v.1 - w.1) * (v.1 - w.1) + (v.2 - w.2) * (v.2 - w.2)).sum := by
+        intro d
+        unfold Poly2d.lsqCost
+        rw [List.zip_map, List.map_map]
+        rfl
+      have hmin' : ∀ d0 d1 d2 d3 : Rat × Rat,
+          Poly2d.fitCost 2 Ain Ab (aa.zip bb) [c0, c1, c2, c3] ≤ Poly2d.fitCost 2 Ain Ab (aa.zip bb) [d0, d1, d2, d3] := by
+        intro d0 d1 d2 d3
+        have := hmin d0 d1 d2 d3
+        rw [hcost, hcost, design_residual_is_fit_cost, design_residual_is_fit_cost] at this
+        exact this
+      have := poly_fit_exact_bilinear Ain Ab hN (aa.zip bb) p0 p1 p2 p3 hexact c0 c1 c2 c3 hmin'
+      simpa only [Poly2d.ofFit, Poly2d.padCoeffs, Poly2d.FitKind.side] using this
+
+/-- `Poly2d.fit` rejects mismatching inputs and fewer than three point pairs before anything else. -/
+theorem poly_fit_rejects (lstsq : List (List Rat) → List (Rat × Rat) → Option (List (Rat × Rat)))
+    (Ain Ab : Aff) (aa bb : List (Rat × Rat)) :
+    (aa.length ≠ bb.length → Poly2d.fit lstsq Ain Ab aa bb = .error .assertion) ∧
+    (aa.length = bb.length → aa.length < 3 → Poly2d.fit lstsq Ain Ab aa bb = .error .valueError) := by
+  constructor
+  · intro h; unfold Poly2d.fit; rw [if_pos h]
+  · intro h1 h2
+    unfold Poly2d.fit
+    rw [if_neg (by simpa using h1), (fit_kind_spec aa.length).1 h2]
+
 /-! ## `data_resolution_and_offset`, `affine_from_axis` -/
 
 /-- **`affine_from_axis_roundtrip`**: labels `t + (i + ½)·r`, `i < n`, `n ≥ 2` give back
@@ -713,6 +898,25 @@ theorem affine_from_axis_roundtrip (t r : Rat) (n : Nat) (hn : 2 ≤ n) (fb : Op
   ext
   · push_cast at hm ⊢; field_simp; ring
   · push_cast at hm ⊢; field_simp; ring
+
+/-- **Branch order of `data_resolution_and_offset`**: with two or more labels the fallback resolution
+is never consulted, and only the first and the last label matter (not "the first two" as the
+docstring says): `res = (last − first)/(n − 1)`, `off = first − res/2`. -/
+theorem data_resolution_first_last (x y : Rat) (rest : List Rat) (fb : Option Rat) :
+    dataResolutionAndOffset (x :: y :: rest) fb =
+      .ok (((y :: rest).getLast (List.cons_ne_nil y rest) - x) / (((rest.length + 1 : Nat)) : Rat),
+           x - 1 / 2 * (((y :: rest).getLast (List.cons_ne_nil y rest) - x) / (((rest.length + 1 : Nat)) : Rat))) ∧
+    dataResolutionAndOffset (x :: y :: rest) fb = dataResolutionAndOffset (x :: y :: rest) none := by
+  constructor
+  · simp [dataResolutionAndOffset]
+  · rfl
+
+/-- `affine_from_axis` passes the x / y component of the fallback to the respective axis, and an axis
+with a single label takes its resolution from it (sign included). -/
+theorem affine_from_axis_single_labels (x y rx ry : Rat) :
+    affineFromAxis [x] [y] (some (rx, ry)) = .ok (Aff.translation (x - 1 / 2 * rx) (y - 1 / 2 * ry) * Aff.scale rx ry) ∧
+    affineFromAxis [x] [y] none = .error .valueError := by
+  constructor <;> rfl
 
 /-- A single label needs the fallback resolution; no label is an error. -/
 theorem data_resolution_small (x : Rat) (fb : Option Rat) :
